@@ -44,6 +44,7 @@ inductive Ev
   | tcleanup
   | mt (kind : String) (ok : Bool) (detail : String)
   | hbrace (ms : Nat) (ticked : Bool)          -- real timer callback vs real call_heart_beat (TSan run)
+  | hbowed (kept : Bool)                       -- a tick arriving inside call_heart_beat is still owed when it returns
   | race (what : String)                      -- ThreadSanitizer report (runtime part)
   | skip (why : String)
   deriving Repr, DecidableEq
@@ -76,6 +77,7 @@ inductive Cmd
   | tinit | tstart (ms : Nat) | tstop | tactive | tsleep (ms : Nat) | tticks | tafter | tcleanup
   | mt (kind : String) (args : List Nat)
   | hbrace (ms : Nat)
+  | hbowed
   deriving Repr
 
 /-! ### timed join as a little machine of the controlling thread -/
@@ -184,7 +186,12 @@ def stepE (s : World) : Cmd → World × List Ev
   | .qclear =>
     match s.q, s.blocked with
     | none, _ => (s, [.skip "no-queue"])
-    | some _, some _ => (s, [.skip "writer-blocked"])
+    | some q, some m =>
+      -- `async_queue_clear` sets `not_full` (Gen.C19.clearSignalsNotFull): the writer asleep on the full queue wakes
+      -- up, finds room and pushes its message
+      if clearSignals = true ∧ (q.clear.enqueue m).2 = .ok then
+        ({ s with q := some (q.clear.enqueue m).1, blocked := none }, [.qclear, .unblocked m.p m.v])
+      else ({ s with q := some q.clear }, [.qclear])
     | some q, none => ({ s with q := some q.clear }, [.qclear])
   | .wnew w mode =>
     match s.getW w with
@@ -262,6 +269,8 @@ def stepE (s : World) : Cmd → World × List Ev
     else ({ s with tm := {}, sleptActive := 0 }, [.tcleanup])
   | .mt kind _ => (s, [.mt kind true ""])
   | .hbrace ms => (s, [.hbrace ms true])
+  -- `call_heart_beat` clears the flag FIRST (Gen.C19.hbClearsFlagFirst): a tick inside the round survives it
+  | .hbowed => (s, [.hbowed Gen.C19.hbClearsFlagFirst])
 
 /-- run a command list: final state and all events, oldest first -/
 def runE : World → List Cmd → World × List Ev
@@ -305,6 +314,7 @@ def render : Ev → String
   | .tcleanup => "tcleanup"
   | .mt k ok d => (s!"mt {k} {if ok then "ok" else "bad"} {d}").trimAsciiEnd.toString
   | .hbrace ms t => s!"hbrace {ms} {if t then "done" else "no-tick"}"
+  | .hbowed k => s!"hbowed {if k then "kept" else "swallowed"}"
   | .race w => s!"race {w}"
   | .skip w => s!"skip {w}"
 
